@@ -76,6 +76,10 @@ var constructs = []construct{
 	{Name: "call-kwargs", Tmpl: "ff(§0, k: §1, §2, j: §3)", Slots: []string{"1", "2", "3", "4"}},
 	{Name: "call-unpack", Tmpl: "ff(*§0, **§1)", Slots: []string{"[1, 2]", "{k: 3}"}},
 	{Name: "call-callee", Tmpl: "§0(§1)", Slots: []string{"id", "1"}},
+	// keyword arguments continued on a line that starts further left than the first keyword (hanging indent)
+	{Name: "call-kwargs-hanging-indent", Tmpl: "ff(1, 2,                k: §0,\n  j: §1)", Slots: []string{"1", "2"}},
+	{Name: "kwarg-defaults-hanging-indent", Tmpl: "{|a,                 k: §0,\n  j: §1| a}", Slots: []string{"1", "2"}},
+	{Name: "obj-pairs-hanging-indent", Tmpl: "{                   a: §0,\n  b: §1,\n c: §2}", Slots: []string{"1", "2", "3"}},
 	{Name: "call-trailing-func", Tmpl: "cf(§0) {|y| §1}", Slots: []string{"1", "2"}},
 	{Name: "propcall", Tmpl: "§0.m(§1, k: §2)", Slots: []string{"oo", "1", "2"}},
 	{Name: "propcall-chainarg-list", Tmpl: "§0@(§1){|e| e}", Slots: []string{"[[1, 2]]", "%{}"}},
